@@ -1318,3 +1318,222 @@ CATALOGUE['C19'] = [
       "            return render_blocks(self.section, md, encoding=self.encoding)",
       "            enc = self.encoding\n            return render_blocks(self.section, md, encoding=enc)"),
 ]
+
+# --------------------------------------------------------------------- C17
+CATALOGUE['C17'] = [
+    V('template remembers its last result', 'DT_String.py',
+      """                self.ZDocumentTemplate_afterRender(md, result)
+                return result""",
+      """                self.ZDocumentTemplate_afterRender(md, result)
+                self._last = result
+                return result""", 'C17.R1'),
+    V('in: sort key stored on the tag (the repaired defect)', 'DT_In.py',
+      """        if self.sort_expr is not None:
+            sequence = self.sort_sequence(sequence, md,
+                                          self.sort_expr.eval(md))
+        elif self.sort is not None:
+            sequence = self.sort_sequence(sequence, md)
+
+        if self.reverse_expr is not None and self.reverse_expr.eval(md):
+            sequence = self.reverse_sequence(sequence)
+        elif self.reverse is not None:
+            sequence = self.reverse_sequence(sequence)
+
+        prefix = self.args.get('prefix')""",
+      """        if self.sort_expr is not None:
+            self.sort = self.sort_expr.eval(md)
+            sequence = self.sort_sequence(sequence, md)
+        elif self.sort is not None:
+            sequence = self.sort_sequence(sequence, md)
+
+        if self.reverse_expr is not None and self.reverse_expr.eval(md):
+            sequence = self.reverse_sequence(sequence)
+        elif self.reverse is not None:
+            sequence = self.reverse_sequence(sequence)
+
+        prefix = self.args.get('prefix')""", 'C17.R1'),
+    V('raise caches its resolved type on the tag', 'DT_Raise.py',
+      """        if expr is None:
+            t = convertExceptionType(self.__name__)
+            if t is None:
+                t = RuntimeError""",
+      """        if expr is None:
+            t = getattr(self, '_v_type', None)
+            if t is None:
+                t = convertExceptionType(self.__name__)
+                if t is None:
+                    t = RuntimeError
+                self._v_type = t""", 'C17.R1'),
+    V('var counts its renderings in a module dict', 'DT_Var.py',
+      """    def render(self, md):
+        args = self.args
+        name = self.__name__
+""",
+      """    def render(self, md):
+        args = self.args
+        name = self.__name__
+        special_formats['last-name'] = name
+""", 'C17.R1'),
+    V('let memoises constant arguments on itself', 'DT_Let.py',
+      """        d = {}
+        md._push(d)""",
+      """        d = {}
+        self.args.append(('_n', str(len(self.args))))
+        md._push(d)""", 'C17.R1'),
+    V('munge forgets to cook', 'DT_String.py',
+      """        if source_string is not None:
+            self.raw = source_string
+        self.cook()""",
+      """        if source_string is not None:
+            self.raw = source_string""", 'C17.R2'),
+    V('munge cooks only when defaults change', 'DT_String.py',
+      """        if mapping is not None or vars:
+            self.initvars(mapping, vars)
+        if source_string is not None:
+            self.raw = source_string
+        self.cook()""",
+      """        if mapping is not None or vars:
+            self.initvars(mapping, vars)
+            self.cook()
+        if source_string is not None:
+            self.raw = source_string""", 'C17.R2'),
+    V('getstate slice width 2', 'DT_String.py', "            if k[:3] in _special:",
+      "            if k[:2] in _special:", 'C17.R3'),
+    V('getstate drops only _v_', 'DT_String.py',
+      "def __getstate__(self, _special=('_v_', '_p_')):",
+      "def __getstate__(self, _special=('_v_',)):", 'C17.R3'),
+    V('file template caches content', 'DT_String.py',
+      """            with open(self.raw) as fd:
+                raw = fd.read()
+            return raw""",
+      """            with open(self.raw) as fd:
+                raw = fd.read()
+            self.edited_source = raw
+            return raw""", 'C17.R4'),
+    V('tree sorts the client list in place (the repaired defect)',
+      'TreeTag.py',
+      "            items = list(items)  # Copy the list\n            sort = args['sort']",
+      "            if isinstance(items, tuple):\n                items = list(items)\n            sort = args['sort']",
+      'C17.R5'),
+    V('tree reverse in place', 'TreeTag.py',
+      """            items = list(items)  # Copy the list
+            items.reverse()""",
+      """            items.reverse()""", 'C17.R5'),
+    V('with pops a key off the client mapping', 'DT_With.py',
+      """        if not self.mapping:""",
+      """        if self.mapping:
+            v.pop('_private', None)
+        if not self.mapping:""", 'C17.R5'),
+    V('call default mapping mutated', 'DT_String.py',
+      """        if mapping is None:
+            mapping = {}
+        if hasattr(mapping, 'taintWrapper'):""",
+      """        if mapping is None:
+            mapping = {}
+        mapping.setdefault('here', client)
+        if hasattr(mapping, 'taintWrapper'):""", 'C17.R5'),
+    # silent
+    V('silent: local result variable', 'DT_String.py',
+      """                self.ZDocumentTemplate_afterRender(md, result)
+                return result""",
+      """                self.ZDocumentTemplate_afterRender(md, result)
+                last = result
+                return last"""),
+]
+
+# --------------------------------------------------------------------- C18
+CATALOGUE['C18'] = [
+    V('cooked flag published first', 'DT_String.py',
+      """            self._v_blocks = self.parse(self.read())
+            self._v_cooked = None""",
+      """            self._v_cooked = None
+            self._v_blocks = self.parse(self.read())""", 'C18.R1'),
+    V('cook without the lock', 'DT_String.py',
+      """        with COOKLOCK:
+            self._v_blocks = self.parse(self.read())
+            self._v_cooked = None""",
+      """        self._v_blocks = self.parse(self.read())
+        self._v_cooked = None""", 'C18.R1'),
+    V('flag stored after releasing the lock', 'DT_String.py',
+      """        with COOKLOCK:
+            self._v_blocks = self.parse(self.read())
+            self._v_cooked = None""",
+      """        with COOKLOCK:
+            self._v_blocks = self.parse(self.read())
+        self._v_cooked = None""", 'C18.R1'),
+    V('render tests the blocks attribute', 'DT_String.py',
+      "        if not hasattr(self, '_v_cooked'):",
+      "        if not hasattr(self, '_v_blocks'):", 'C18.R1'),
+    V('call invalidates the compiled state itself', 'DT_String.py',
+      """            self.cook()
+            if not changed:
+                self.__changed__(0)""",
+      """            self._v_cooked = None
+            self._v_blocks = self.parse(self.read())
+            if not changed:
+                self.__changed__(0)""", 'C18.R2'),
+    V('in: sort key stored on the tag (the repaired defect)', 'DT_In.py',
+      """        if self.sort_expr is not None:
+            sequence = self.sort_sequence(sequence, md,
+                                          self.sort_expr.eval(md))
+        elif self.sort is not None:
+            sequence = self.sort_sequence(sequence, md)
+
+        if self.reverse_expr is not None and self.reverse_expr.eval(md):
+            sequence = self.reverse_sequence(sequence)
+        elif self.reverse is not None:
+            sequence = self.reverse_sequence(sequence)
+
+        next = previous = 0""",
+      """        if self.sort_expr is not None:
+            self.sort = self.sort_expr.eval(md)
+            sequence = self.sort_sequence(sequence, md)
+        elif self.sort is not None:
+            sequence = self.sort_sequence(sequence, md)
+
+        if self.reverse_expr is not None and self.reverse_expr.eval(md):
+            sequence = self.reverse_sequence(sequence)
+        elif self.reverse is not None:
+            sequence = self.reverse_sequence(sequence)
+
+        next = previous = 0""", 'C18.R3'),
+    V('with keeps the evaluated object on the tag', 'DT_With.py',
+      """        if not self.mapping:
+            if isinstance(v, tuple) and len(v) == 1:
+                v = v[0]
+            v = InstanceDict(v, md)""",
+      """        if not self.mapping:
+            if isinstance(v, tuple) and len(v) == 1:
+                v = v[0]
+            self.current = v
+            v = InstanceDict(self.current, md)""", 'C18.R3'),
+    V('lazy tag import from the render path', 'DT_String.py',
+      """        if not hasattr(self, '_v_cooked'):
+            try:""",
+      """        if 'in' in self.commands:
+            self._parseTag(self.tagre().search('%(in x)['))
+        if not hasattr(self, '_v_cooked'):
+            try:""", 'C18.R4'),
+    V('read() cooks (lock re-entered)', 'DT_String.py',
+      """    def read(self, raw=None):
+        return self.read_raw()""",
+      """    def read(self, raw=None):
+        if not hasattr(self, '_v_cooked') and raw:
+            self.cook()
+        return self.read_raw()""", 'C18.R5'),
+    V('module-level scratch namespace', 'DT_String.py',
+      """            md = TemplateDict()
+            push = md._push
+            shared_globals = self.shared_globals""",
+      """            md = _SCRATCH
+            push = md._push
+            shared_globals = self.shared_globals""", 'C18.R6',
+      extra=[("COOKLOCK = Lock()", "COOKLOCK = Lock()\n_SCRATCH = TemplateDict()")]),
+    # silent
+    V('silent: lock via alias statement order', 'DT_String.py',
+      """            self._v_blocks = self.parse(self.read())
+            self._v_cooked = None""",
+      """            blocks = self.parse(self.read())
+            self._v_blocks = blocks
+            self._v_cooked = None"""),
+]
